@@ -1,2 +1,201 @@
+//! C51 (component half): fields and key-value entries locked by a custom component through
+//! `field_lock` / `key_value_entry_lock`, and component royalty settings locked with
+//! `lock_royalty`, stay locked: every later transaction that tries to write / remove / re-set
+//! must fail to do so. The harness keeps its own set of locked items (an item becomes locked when
+//! a lock step returned Ok in a transaction that committed successfully); a later write-type step
+//! on such an item that returns Ok in a successfully committed transaction is a violation. The
+//! global C51 monitor (byte comparison of every substate ever seen locked) runs on every
+//! transaction as well.
+use crate::probe::*;
+use crate::world::*;
+use radix_engine_interface::api::ACTOR_STATE_SELF;
 use rv_common::*;
-pub fn run(_args: &Args) -> i32 { 2 }
+use rv_ledger::prelude::*;
+use serde_json::json;
+use std::collections::BTreeSet;
+use std::time::Duration;
+
+#[derive(Clone, Debug, PartialEq, Eq, PartialOrd, Ord)]
+enum Item {
+    Field(usize, u8),
+    Entry(usize, Vec<u8>),
+    StoreEntry(usize, Vec<u8>),
+    Royalty(usize, String),
+}
+
+struct Comp {
+    addr: GlobalAddress,
+    store: Option<NodeId>,
+    royalty: bool,
+}
+
+const KEYS: [&[u8]; 5] = [b"k0", b"k1", b"k2", b"k3", b"k4"];
+const METHODS: [&str; 3] = ["run", "other", "x"];
+
+pub fn run(args: &Args) -> i32 {
+    let spec = Spec::new(
+        "C51",
+        "exploration",
+        "lock scripts run by SysProbe components on their own state: fields (field_write, field_lock), collection entries and entries of an owned key-value store (set, lock, remove) and component royalty settings (set_royalty, lock_royalty), 1-4 steps per transaction over a growing set of components, callers being the component's own methods; after a lock every later write/remove/set attempt must fail; non-trivial = a step aimed at an item the harness holds as locked; distinct = distinct (item kind, operation, step outcome class, transaction outcome)",
+    )
+    .assume("an item counts as locked once a lock step returned Ok inside a transaction that committed successfully")
+    .assume("metadata, owner-role and role-updater locks are exercised by rv-engine C51; this check covers locks taken through the system API by a custom component and the royalty module")
+    .floor("c51p:locks_taken", args.tier.pick(150, 3000))
+    .floor("c51p:attempts_on_locked:field", args.tier.pick(100, 2000))
+    .floor("c51p:attempts_on_locked:entry", args.tier.pick(100, 2000))
+    .floor("c51p:attempts_on_locked:store_entry", args.tier.pick(30, 600))
+    .floor("c51p:attempts_on_locked:royalty", args.tier.pick(30, 600))
+    .floor("c51:substates_becoming_locked", 100);
+    let mut report = Report::new(args, spec);
+    if args.replay.is_some() {
+        println!("C51 probe violations depend on the lock history: re-run with the recorded seed (VERIF_SEED) and tier; the detail lists the transaction scripts since the lock");
+        return 2;
+    }
+    let txs = scaled(args, args.tier.pick(6_000, 300_000));
+    let per_shard = (txs / args.threads as u64).max(1);
+    let budget = Duration::from_secs(budget_secs(args.tier, 60, 840));
+    report.run_shards(51, args.threads, budget, |i, rng, shard| {
+        let mut world = PWorld::new(shard);
+        let refs = vec![world.g[0], world.g[1], world.g_b, world.pkg[0].into(), world.pkg[1].into(), world.res.into()];
+        let mut comps: Vec<Comp> = vec![Comp { addr: world.g[0], store: None, royalty: true }, Comp { addr: world.g[1], store: None, royalty: true }, Comp { addr: world.g_b, store: None, royalty: false }];
+        let mut locked: BTreeSet<Item> = BTreeSet::new();
+        let mut n = 0;
+        while n < per_shard && !shard.time_up() {
+            n += 1;
+            // new components from time to time (locked items accumulate)
+            if n % 40 == 0 || comps.len() < 3 {
+                let p = world.pkg[rng.usize_below(2)];
+                let royalty = rng.bool();
+                let m = ManifestBuilder::new().lock_fee_from_faucet().call_function(p, BP, "new_global", manifest_args!(b"init".to_vec(), royalty)).build();
+                let r = world.ledger.exec(shard, "c51p:new_component", m, vec![], false);
+                if let Some(rc) = &r.exec.receipt {
+                    if rc.is_commit_success() {
+                        comps.push(Comp { addr: rc.expect_commit(true).new_component_addresses()[0].into(), store: None, royalty });
+                    }
+                }
+                continue;
+            }
+            let ci = if rng.chance(2, 3) && comps.len() > 3 { comps.len() - 1 - rng.usize_below(3) } else { rng.usize_below(comps.len()) };
+            // give the component a persisted key-value store first
+            if comps[ci].store.is_none() && rng.chance(1, 3) {
+                let launch = Launch { callee: Callee::Method(comps[ci].addr), script: vec![Op::NewKvStore { dst: 20 }, Op::StoreInKv { slot: 20, key: b"store".to_vec() }], buckets: vec![], proofs: 0, reservations: vec![], refs: refs.clone() };
+                let r = world.launch(shard, "c51p:make_store", &launch, None);
+                if r.exec.is_success() {
+                    for ev in &r.trace {
+                        if let TraceEv::Step(s) = ev {
+                            if matches!(s.op, Op::NewKvStore { .. }) && s.result.is_ok() {
+                                comps[ci].store = s.created.first().copied();
+                            }
+                        }
+                    }
+                }
+                continue;
+            }
+            let nsteps = 1 + rng.usize_below(4);
+            let mut script: Vec<Op> = vec![];
+            // (item, is_write, is_lock) per script index
+            let mut meaning: Vec<Option<(Item, bool, bool)>> = vec![];
+            let mut holding = false;
+            for _ in 0..nsteps {
+                let plen = 1 + rng.usize_below(12);
+                let payload = rng.bytes(plen);
+                match rng.below(10) {
+                    0..=3 => {
+                        let index = rng.below(2) as u8;
+                        let mode = *rng.pick(&[0u8, 1, 1, 1, 2, 2, 3]);
+                        script.push(Op::FieldOp { handle: ACTOR_STATE_SELF, index, mode, payload });
+                        meaning.push(Some((Item::Field(ci, index), mode == 1 || mode == 2, mode >= 2)));
+                    }
+                    4..=6 => {
+                        let key = rng.pick(&KEYS).to_vec();
+                        let mode = *rng.pick(&[0u8, 1, 1, 1, 2, 2, 3, 3, 4]);
+                        script.push(Op::KvActorOp { handle: ACTOR_STATE_SELF, collection: 0, key: key.clone(), mode, payload });
+                        meaning.push(Some((Item::Entry(ci, key), matches!(mode, 1 | 2 | 3), matches!(mode, 2 | 4))));
+                    }
+                    7..=8 => {
+                        let Some(store) = comps[ci].store else { continue };
+                        if !holding {
+                            script.push(Op::HoldKv { key: b"store".to_vec() });
+                            meaning.push(None);
+                            holding = true;
+                        }
+                        let key = rng.pick(&KEYS).to_vec();
+                        let mode = *rng.pick(&[0u8, 1, 1, 1, 2, 2, 3, 3, 4]);
+                        script.push(Op::KvStoreOp { t: Tgt::Raw(store.0.to_vec()), key: key.clone(), mode, payload });
+                        meaning.push(Some((Item::StoreEntry(ci, key), matches!(mode, 1 | 2 | 3), matches!(mode, 2 | 4))));
+                    }
+                    _ => {
+                        if !comps[ci].royalty {
+                            continue;
+                        }
+                        let method = rng.pick(&METHODS).to_string();
+                        let mode = *rng.pick(&[0u8, 0, 1, 2]);
+                        script.push(Op::RoyaltyOp { mode, method: method.clone() });
+                        meaning.push(Some((Item::Royalty(ci, method), mode != 1, mode == 1)));
+                    }
+                }
+            }
+            if script.is_empty() {
+                continue;
+            }
+            let launch = Launch { callee: Callee::Method(comps[ci].addr), script: script.clone(), buckets: vec![], proofs: 0, reservations: vec![], refs: refs.clone() };
+            let r = world.launch(shard, "c51p:script", &launch, None);
+            shard.count("c51p:transactions");
+            let Some(receipt) = &r.exec.receipt else { continue };
+            let committed_ok = receipt.is_commit_success();
+            let txo = rv_ledger::outcome_class(receipt);
+            let mut newly: Vec<Item> = vec![];
+            for ev in &r.trace {
+                let TraceEv::Step(s) = ev else { continue };
+                if s.idx >= 1000 || s.frame != 1 {
+                    continue;
+                }
+                let Some(Some((item, is_write, is_lock))) = meaning.get(s.idx) else { continue };
+                let kind = match item {
+                    Item::Field(..) => "field",
+                    Item::Entry(..) => "entry",
+                    Item::StoreEntry(..) => "store_entry",
+                    Item::Royalty(..) => "royalty",
+                };
+                let step_outcome = match &s.result {
+                    Ok(_) => "ok".to_string(),
+                    Err(e) => format!("err:{}", crate::c50::err_class(e)),
+                };
+                let was_locked = locked.contains(item) || newly.contains(item);
+                shard.count(&format!("c51p:step|{kind}|{}|{}|{step_outcome}", if was_locked { "locked" } else { "unlocked" }, s.op.kind()));
+                if was_locked && (*is_write || *is_lock) {
+                    shard.count(&format!("c51p:attempts_on_locked:{kind}"));
+                    shard.nontrivial(&(kind, format!("{:?}", s.op).chars().take(24).collect::<String>(), &step_outcome, &txo));
+                    if *is_write && s.result.is_ok() {
+                        if committed_ok {
+                            shard.violation(format!("write-to-locked-{kind}-committed"), json!({"component": hex::encode(comps[ci].addr.as_node_id().0), "item": format!("{:?}", item), "script": script.iter().map(|o| format!("{:?}", o)).collect::<Vec<_>>(), "step": s.idx, "tx_outcome": txo, "shard": i, "tx_number": n}));
+                        } else {
+                            shard.count("c51p:write_to_locked_step_ok_but_tx_failed");
+                        }
+                    }
+                } else if !was_locked {
+                    shard.nontrivial(&(kind, "unlocked", s.op.kind(), &step_outcome));
+                    if *is_write && s.result.is_err() && committed_ok {
+                        shard.seen("c51p:write_errors_on_unlocked", &step_outcome);
+                    }
+                }
+                if *is_lock && s.result.is_ok() {
+                    newly.push(item.clone());
+                }
+            }
+            if committed_ok {
+                for it in newly {
+                    if locked.insert(it) {
+                        shard.count("c51p:locks_taken");
+                    }
+                }
+            }
+            if n % 2000 == 0 {
+                world.ledger.walk(shard, &format!("C51 probe shard {i} after {n}"));
+            }
+        }
+        world.ledger.walk(shard, &format!("end of C51 probe shard {i}"));
+        shard.sample(|| json!({"shard": i, "components": comps.len(), "locked_items": locked.len()}));
+    });
+    report.finish()
+}
